@@ -13,6 +13,39 @@ From Helm Require Import Common.Assoc Engine.Types Engine.Eff Engine.Ops Engine.
 From Helm Require Export Run.RunEng.
 Import ListNotations.
 
+(* abbreviations the harness printer uses for recurring string literals (c07Abbrev in
+   harness/cmd/hx/c07.go): parsing a literal costs coqc time per character *)
+Local Open Scope string_scope.
+Definition sL := "l:app.kubernetes.io/managed-by".
+Definition sAN := "a:meta.helm.sh/release-name".
+Definition sAS := "a:meta.helm.sh/release-namespace".
+Definition sl := "app.kubernetes.io/managed-by".
+Definition san := "meta.helm.sh/release-name".
+Definition sas := "meta.helm.sh/release-namespace".
+Definition sLN := "l:app.kubernetes.io/name".
+Definition sAT := "a:example.com/note".
+Definition sln := "app.kubernetes.io/name".
+Definition sat := "example.com/note".
+Definition sB1 := "ConfigMap/bystander".
+Definition sB2 := "ConfigMap/bystander-other".
+Definition sB3 := "Secret/bystander-labelled".
+Definition sCB := "ConfigMap/base".
+Definition sCM := "ConfigMap".
+Definition sSE := "Secret".
+Definition sSA := "ServiceAccount".
+Definition sD := "default".
+Definition sE := "elsewhere".
+Definition sH := "Helm".
+Definition sKM := "keep me".
+Definition sCr := "create".
+Definition sUp := "update".
+Definition sDe := "delete".
+Definition sHW := "hookwatch".
+Definition sby := "bystander".
+Definition sbo := "bystander-other".
+Definition sbl := "bystander-labelled".
+Local Close Scope string_scope.
+
 Record stamp_obs := mkSO {
   so_rn : string; so_ns : string; so_force : bool;
   so_labels : strmap; so_annots : strmap;            (* the object's maps before *)
